@@ -22,6 +22,7 @@ import (
 	"github.com/practable/relay/internal/tcpconnect"
 	"github.com/practable/relay/internal/vw"
 	"github.com/practable/relay/verifharness/lib"
+	log "github.com/sirupsen/logrus"
 )
 
 // host is one real vw.App with its hubs running and its real HTTP server (real router) listening.
@@ -336,7 +337,7 @@ func runHubStream(s *Stream) {
 		write = func(b []byte) error { _, err := pw.Write(b); return err }
 		closeIn = func() { pw.Close() }
 	case "ws":
-		c, _, err := websocket.DefaultDialer.Dial("ws://"+h.base+"/ws/"+feed, nil)
+		c, err := dialFeed(h, feed, s)
 		if err != nil {
 			o.Err = "dial: " + err.Error()
 			return
@@ -565,7 +566,7 @@ func runReverse(s *Stream) {
 		return
 	}
 	// the local feed client: a websocket client of /ws/<feed> (handleWs writePump)
-	fc, _, err := websocket.DefaultDialer.Dial("ws://"+h.base+"/ws/"+feed, nil)
+	fc, err := dialFeed(h, feed, s)
 	if err != nil {
 		o.Err = "dial: " + err.Error()
 		return
@@ -648,7 +649,11 @@ func runWsOut(s *Stream) {
 	h := newHost()
 	feed := "feed-" + s.Name
 	d := websocket.Dialer{ReadBufferSize: 4096}
-	c, _, err := d.Dial("ws://"+h.base+"/ws/"+feed, nil)
+	var hdr http.Header
+	if s.Headers {
+		hdr = oddHeaders(s.Seed)
+	}
+	c, _, err := d.Dial("ws://"+h.base+"/ws/"+feed, hdr)
 	if err != nil {
 		o.Err = "dial: " + err.Error()
 		return
@@ -765,6 +770,13 @@ func runDest(s *Stream) {
 	case <-time.After(3 * time.Second):
 		o.Err = "the host did not connect to the destination within 3 s"
 		return
+	}
+	for i := 0; i < s.Reposts; i++ { // the identical rule again
+		h.app.Websocket.Add <- rwc.Rule{ID: "d0", Stream: feed, Destination: "ws" + strings.TrimPrefix(dest.URL, "http") + "/in/" + feed}
+		select {
+		case <-connected:
+		case <-time.After(300 * time.Millisecond): // it may keep its connection: what counts is what arrives
+		}
 	}
 	time.Sleep(3 * time.Millisecond)
 	h.barrier()
@@ -930,8 +942,28 @@ func runAgg(s *Stream) {
 		}
 		settle()
 	}
+	for i := 0; i < s.Reposts; i++ {
+		// every destination rule posted again, unchanged: each destination still gets each message once
+		for d, kind := range s.DestKinds {
+			if kind != "rwc" {
+				continue
+			}
+			h.app.Websocket.Add <- rwc.Rule{ID: "d" + strconv.Itoa(d), Stream: stream, Destination: dests[d].sink.url("/in/" + strconv.Itoa(d))}
+			select {
+			case <-dests[d].sink.connected:
+			case <-time.After(300 * time.Millisecond): // it may keep its connection: what counts is what arrives
+			}
+		}
+		settle()
+	}
 	input := s.wsoutInput()
+	left := false
 	for k := 0; k < s.Count; k++ {
+		if s.Leaver > 0 && !left && k >= s.Count/2 && dests[s.Leaver-1].cl != nil {
+			h.app.Hub.Unregister <- dests[s.Leaver-1].cl // a viewer of the stream leaves; the others go on
+			settle()
+			left = true
+		}
 		feed := feeds[k%len(feeds)]
 		inj := hub.Client{Name: "verif-inj", Topic: feed}
 		h.app.Hub.Broadcast <- hub.Message{Sender: inj, Data: input[k*s.Blk : (k+1)*s.Blk], Type: websocket.BinaryMessage, Sent: time.Now()}
@@ -939,7 +971,10 @@ func runAgg(s *Stream) {
 		start := time.Now()
 		for time.Since(start) < 25*time.Millisecond {
 			all := true
-			for _, d := range dests {
+			for di, d := range dests {
+				if left && di == s.Leaver-1 {
+					continue
+				}
 				if count(d) < k+1 {
 					all = false
 				}
@@ -982,12 +1017,19 @@ func runText(s *Stream) {
 		o.Err = "the host did not connect to the destination within 3 s"
 		return
 	}
-	c, _, err := websocket.DefaultDialer.Dial("ws://"+h.base+"/ws/"+feed, nil)
+	c, err := dialFeed(h, feed, s)
 	if err != nil {
 		o.Err = "dial: " + err.Error()
 		return
 	}
 	defer c.Close()
+	for i := 0; i < s.Reposts; i++ { // the identical rule again: the destination keeps receiving each message once
+		h.app.Websocket.Add <- rwc.Rule{ID: "t0", Stream: feed, Destination: sink.url("/in/" + feed)}
+		select {
+		case <-sink.connected:
+		case <-time.After(300 * time.Millisecond): // it may keep its connection: what counts is what arrives
+		}
+	}
 	time.Sleep(5 * time.Millisecond)
 	h.barrier()
 	for _, m := range s.Msgs {
@@ -1094,7 +1136,7 @@ func runBig(s *Stream) {
 		}(u, slow)
 	}
 	h.barrier()
-	c, _, err := websocket.DefaultDialer.Dial("ws://"+h.base+"/ws/"+feed, nil)
+	c, err := dialFeed(h, feed, s)
 	if err != nil {
 		o.Err = "dial: " + err.Error()
 		return
@@ -1115,6 +1157,9 @@ func runBig(s *Stream) {
 			return
 		}
 		o.Posted += n
+		if s.Pings {
+			_ = c.WriteControl(websocket.PingMessage, []byte("hb"), time.Now().Add(time.Second))
+		}
 		if s.BurstLen > 0 && (i+1)%s.BurstLen == 0 && s.GapUs > 0 {
 			time.Sleep(time.Duration(s.GapUs) * time.Microsecond)
 		}
@@ -1122,6 +1167,13 @@ func runBig(s *Stream) {
 	if !t.waitCount(len(s.Sizes), 5*time.Second) {
 		got, _, _ := t.state()
 		o.Err = fmt.Sprintf("%d websocket feed messages sent, only %d handed on within 5 s", len(s.Sizes), got)
+	}
+	if s.BrokenTail && o.Err == "" {
+		// a peer that fails in the middle: a frame announcing 5000 bytes, 1000 sent, connection dropped - nothing
+		// of it may be handed on
+		raw := c.UnderlyingConn()
+		_, _ = raw.Write(append([]byte{0x82, 0x80 | 126, 5000 >> 8, 5000 & 255, 1, 2, 3, 4}, make([]byte, 1000)...))
+		raw.Close()
 	}
 	time.Sleep(40 * time.Millisecond) // anything that is still on its way to a subscriber
 	close(t.stop)
@@ -1135,7 +1187,48 @@ func runBig(s *Stream) {
 	}
 }
 
+// oddHeaders: request headers a proxy chain or a tracing layer may add to an upgrade; none of them may change
+// what is forwarded
+func oddHeaders(seed uint64) http.Header {
+	r := lib.NewRng(int64(seed) + 4711)
+	h := http.Header{}
+	h.Set("X-Forwarded-For", r.Pick([]string{"203.0.113.7", "203.0.113.7, 198.51.100.2, 10.0.0.1", "203.0.113.7:4711", "[2001:db8::7]:443", "[2001:db8::7", "", strings.Repeat("1.2.3.4, ", 500)}))
+	h.Set("X-Real-Ip", r.Pick([]string{"203.0.113.7", "not-an-ip", ""}))
+	h.Set("Forwarded", `for="[2001:db8::7]:4711";proto=https;by=203.0.113.43`)
+	h.Set("X-Request-Id", "same-on-every-connection")
+	h.Set("X-Correlation-Id", "same-on-every-connection")
+	h.Set("Traceparent", "00-0af7651916cd43dd8448eb211c80319c-b7ad6b7169203331-01")
+	h.Set("X-Request-Start", r.Pick([]string{"t=0", "t=99999999999999", "garbage", "-1"}))
+	h.Add("X-Forwarded-Proto", "https")
+	h.Add("X-Forwarded-Proto", "http")
+	return h
+}
+
+// dialFeed connects a websocket client to /ws/<feed>, with the stream's header and compression dimensions
+func dialFeed(h *host, feed string, s *Stream) (*websocket.Conn, error) {
+	d := websocket.Dialer{HandshakeTimeout: 5 * time.Second}
+	var hdr http.Header
+	if s.Headers {
+		hdr = oddHeaders(s.Seed)
+		d.EnableCompression = true // offers permessage-deflate; the host does not take it
+	}
+	c, _, err := d.Dial("ws://"+h.base+"/ws/"+feed, hdr)
+	return c, err
+}
+
+func setLogLevel(level string) {
+	switch level {
+	case "trace":
+		log.SetLevel(log.TraceLevel)
+	case "debug":
+		log.SetLevel(log.DebugLevel)
+	default:
+		log.SetLevel(log.PanicLevel)
+	}
+}
+
 func runStream(s *Stream) {
+	setLogLevel(s.LogLevel)
 	defer func() {
 		if r := recover(); r != nil && s.Obs != nil {
 			s.Obs.Err = fmt.Sprintf("harness panic: %v", r)
